@@ -1313,7 +1313,10 @@ class C06(WorkerCheck):
             "receiving and executing); in the in-memory mode the client collects results with taskiq.gather() over "
             "handles in its own order (k-th result must belong to the k-th handle); default task ids generated in 4 "
             "processes forked after import must not collide; concurrent kiq() calls on one kicker / task object through a "
-            "suspending broker must each return a handle for their own message. Non-trivial: >=2 executions overlapped in time and "
+            "suspending broker must each return a handle for their own message. Further dimensions: label *names* per message (every echo "
+            "carries the names its Context holds), messages handed back with Context.requeue(), tasks that send a child task from "
+            "their body (in-place in-memory broker: same asyncio task), a shared task next to own tasks, task ids differing only in "
+            "letter case, a pickling result backend with an error that cannot be pickled. Non-trivial: >=2 executions overlapped in time and "
             ">=1 dependency echo checked; distinct = distinct (kind, delivery) sequences.")
     floors = {"counters.echoes_checked": 3000, "events.dep_open": 500, "counters.gather_calls_checked": 50,
               "counters.forked_ids_generated": 1000, "counters.shared_kicker_sends": 100}
@@ -1728,6 +1731,8 @@ class C10(WorkerCheck):
             "sequence pre_send[registration order, each seeing predecessors' markers] . kick . post_send iff kick "
             "succeeded, failed kick => SendTaskError; worker sequence pre_execute* . task . on_error*? . "
             "post_execute* . (save . post_save*)? with each overridden hook exactly once in registration order. "
+            "Further dimensions: retry middleware re-sends, Context.requeue() rounds, the worker-process flag, failing acks, "
+            "executions cancelled from outside after listen() returned, parameters annotated with plain classes. "
             "Non-trivial: >=1 middleware with >=1 overridden hook and >=1 delivered message; distinct = distinct "
             "(kind, mw, delivery) sequences.")
     floors = {"counters.messages_checked": 2000, "events.kick_fail": 30, "events.mw:post_save": 100,
